@@ -29,9 +29,15 @@
    FanIn delivery is one step (their own specification is G06's).
 
    Switches.  Mechanisms (TRUE = as coded; FALSE = expected-violation mutants): Verify, Retry,
-   CheckedStore.  Defect (FALSE = as coded, TRUE = repaired): CtxAwareSends — the sends
-   `orderedBlockBodiesCh <- ...` in processSpecBlockParts and `bodyCh <- BlockBody{Err: ...}` in
-   adaptAndSanityCheckBlock do not watch the context, their only receiver (Bridge) does. *)
+   CheckedStore.  Defects (FALSE = as coded at the pinned commit, TRUE = repaired):
+     CtxAwareSends  the send `orderedBlockBodiesCh <- ...` in processSpecBlockParts and every
+                    `bodyCh <- BlockBody{Err: ...}` in adaptAndSanityCheckBlock do not watch the
+                    context, their only receiver (Bridge) does: a cancellation between the
+                    goroutine's context check and its send blocks it for ever (repaired f3916c0);
+     FieldsChecked  adapters/p2p2core and the hash functions behind them dereference sub-messages a
+                    peer may leave out (class `malformed`): the goroutine of
+                    adaptAndSanityCheckBlock panics, nothing recovers it, the process dies
+                    (repaired 3529932: the answer is refused with an error body). *)
 EXTENDS Naturals, Sequences, FiniteSets, TLC
 
 CONSTANTS HA,            \* blocks of the honest chain A: heights 0 .. HA-1
@@ -44,16 +50,17 @@ CONSTANTS HA,            \* blocks of the honest chain A: heights 0 .. HA-1
           MaxIter,       \* bound on iterations of Service.Run (0: unbounded)
           WithCancel,    \* the context may be cancelled
           Verify, Retry, CheckedStore,   \* mechanisms (TRUE = code)
-          CtxAwareSends                  \* defect switch (FALSE = code)
+          CtxAwareSends, FieldsChecked   \* defect switches (FALSE = the pinned commit)
 
 Parts   == <<"hdr", "txs", "evs", "cls", "sd">>     \* the order ProcessBlock opens the streams in
 PartSet == {Parts[i] : i \in 1..5}
-Classes == {"honest", "benign", "flaky", "down", "fork", "mute", "trunc", "other", "corrupt"}
+Classes == {"honest", "benign", "flaky", "down", "fork", "mute", "trunc", "other", "corrupt", "malformed"}
 
 C(k, c, h) == [k |-> k, c |-> c, h |-> h]
 None    == C("none", "-", 0)
 Empty   == C("empty", "-", 0)
 Bad     == C("bad", "-", 0)
+Mal     == C("mal", "-", 0)      \* a message that lacks a field the requesting side reads through
 Pending == C("pending", "-", 0)
 Blk(id) == C("blk", id.c, id.h)
 
@@ -71,9 +78,13 @@ ServeFrom(c, p, n) == IF n < LenOf(c) THEN T(Id(c, n), p) ELSE Missing(p)
    fork                 the truth of chain B;
    mute                 nothing / Fin only / reset / silence until the read deadline / a peer that
                         does not have block n yet;
-   trunc                a proper prefix of the answer, no Fin;
+   trunc                a proper prefix of the answer, no Fin: NO complete item (an empty list — which
+                        is the truth for a block of ANOTHER chain whose part is empty) or some but
+                        not all of them (see AnsSet; every non-empty part has at least two items);
    other                the answer for a neighbouring block;
-   corrupt              one value changed, or one item too many. *)
+   corrupt              one value changed, or one item too many;
+   malformed            one sub-message of one item left out (a well-formed protobuf message all the
+                        same), in a place the requesting side reads through. *)
 Ans(k, p, n) ==
   CASE k \in {"honest", "benign", "flaky"} -> ServeFrom("A", p, n)
     [] k = "fork"    -> ServeFrom("B", p, n)
@@ -84,7 +95,12 @@ Ans(k, p, n) ==
                         IF p = "hdr" THEN None    \* a header is filed under ITS number
                         ELSE IF ServeFrom("A", p, m).k = "blk" THEN Bad ELSE Empty
     [] k = "corrupt" -> IF p = "hdr" THEN (IF n < HA THEN Bad ELSE None) ELSE Bad
+    [] k = "malformed" -> IF p = "hdr" THEN (IF n < HA THEN Mal ELSE None) ELSE Mal
     [] OTHER         -> Missing(p)
+
+(* the answers of a class whose abstract effect is not a function of the request *)
+AnsSet(k, p, n) ==
+  IF k = "trunc" /\ p # "hdr" /\ ServeFrom("A", p, n).k = "blk" THEN {Empty, Bad} ELSE {Ans(k, p, n)}
 
 NoBody  == [k |-> "none", c |-> "-", h |-> 0, sound |-> TRUE]
 ErrBody == [k |-> "err", c |-> "-", h |-> 0, sound |-> TRUE]
@@ -176,14 +192,15 @@ Open ==
                   /\ UNCHANGED <<stored, n, got, adapt, abody, carry, hand, emitted, cancelled, iters, lucky>>
 
 (* ---------------------------------------------------------------- processSpecBlockParts *)
-Complete(g) == g["hdr"].k \in {"blk", "bad"} /\ \A p \in PartSet : g[p].k # "pending"
+Complete(g) == g["hdr"].k \in {"blk", "bad", "mal"} /\ \A p \in PartSet : g[p].k # "pending"
 AllDelivered == \A p \in PartSet : got[p].k # "pending"
 
 Deliver(p) ==       \* a part goroutine's answer reaches the processor (through Stage and FanIn)
   /\ run = "bridge" /\ proc = "recv" /\ ~cancelled /\ got[p].k = "pending"
-  /\ got' = [got EXCEPT ![p] = Ans(ClassOf[asg[p]], p, n)]
+  /\ \E a \in AnsSet(ClassOf[asg[p]], p, n) :
+       /\ got' = [got EXCEPT ![p] = a]
+       /\ act' = [name |-> "Deliver", part |-> p, k |-> a.k]
   /\ proc' = IF Complete(got') THEN "pre" ELSE "recv"     \* `select { case <-ctx.Done(): default:`
-  /\ act' = [name |-> "Deliver", part |-> p]
   /\ UNCHANGED <<stored, alive, run, n, nopen, asg, adapt, abody, bridge, carry, hand, emitted, cancelled, iters, lucky>>
 
 ProcSpawn ==        \* previous root read, adapt goroutine started, now at the send
@@ -206,8 +223,11 @@ Assemble(g) ==
            sound == \A p \in PartSet \ {"hdr"} : g[p] = T(id, p)
        IN IF Verify /\ ~sound THEN ErrBody ELSE Good(id, sound)
 
+Malformed == \E p \in PartSet : got[p].k = "mal"
+
 AdaptRun ==
   /\ adapt = "run"
+  /\ cancelled \/ FieldsChecked \/ ~Malformed
   /\ IF cancelled
      THEN adapt' = "sendErr" /\ abody' = ErrBody          \* `case <-ctx.Done(): bodyCh <- BlockBody{Err: ctx.Err()}`
      ELSE LET b == Assemble(got) IN
@@ -216,6 +236,12 @@ AdaptRun ==
                  IF e THEN adapt' = "sendErr" /\ abody' = ErrBody ELSE adapt' = "done" /\ abody' = NoBody
   /\ A0("AdaptRun")
   /\ UNCHANGED <<stored, alive, run, n, nopen, asg, got, proc, bridge, carry, hand, emitted, cancelled, iters, lucky>>
+
+AdaptCrash ==           \* a nil dereference in this goroutine: the process is gone, with everything in it
+  /\ adapt = "run" /\ ~cancelled /\ ~FieldsChecked /\ Malformed
+  /\ run' = "crashed" /\ proc' = "done" /\ adapt' = "done" /\ bridge' = "off"
+  /\ abody' = NoBody /\ carry' = NoBody /\ hand' = NoBody /\ A0("Crash")
+  /\ UNCHANGED <<stored, alive, n, nopen, asg, got, emitted, cancelled, iters, lucky>>
 
 AdaptOkCancelled ==     \* `select { case <-ctx.Done(): case bodyCh <- BlockBody{...}: }`
   /\ adapt = "sendOk" /\ cancelled /\ adapt' = "done" /\ abody' = NoBody /\ A0("AdaptOkCancelled")
@@ -283,11 +309,11 @@ Consume ==
   /\ UNCHANGED <<alive, run, n, nopen, asg, got, proc, adapt, abody, bridge, carry, emitted, cancelled, iters, lucky>>
 
 Cancel ==
-  /\ WithCancel /\ ~cancelled /\ run # "exited" /\ cancelled' = TRUE /\ A0("Cancel")
+  /\ WithCancel /\ ~cancelled /\ run \notin {"exited", "crashed"} /\ cancelled' = TRUE /\ A0("Cancel")
   /\ UNCHANGED <<stored, alive, run, n, nopen, asg, got, proc, adapt, abody, bridge, carry, hand, emitted, iters, lucky>>
 
 Internal ==
-  \/ ProcSpawn \/ ProcSendCancelled \/ ProcEnd \/ AdaptRun \/ AdaptOkCancelled \/ AdaptErrCancelled
+  \/ ProcSpawn \/ ProcSendCancelled \/ ProcEnd \/ AdaptRun \/ AdaptCrash \/ AdaptOkCancelled \/ AdaptErrCancelled
   \/ BridgeTake \/ BridgeOuterClosed \/ BridgeOuterCancel \/ BridgeRecv \/ BridgeInnerClosed
   \/ BridgeInnerCancel \/ BridgeFwdCancel \/ Exit \/ LoopTop
 Sys  == ReadHeight \/ Open \/ (\E p \in PartSet : Deliver(p)) \/ Internal \/ Recv \/ Consume
@@ -296,7 +322,7 @@ Spec == Init /\ [][Next]_vars
 
 (* ---------------------------------------------------------------- properties *)
 TypeOK ==
-  /\ run \in {"idle", "reading", "opening", "bridge", "exited"} /\ proc \in {"off", "recv", "pre", "send", "done"}
+  /\ run \in {"idle", "reading", "opening", "bridge", "exited", "crashed"} /\ proc \in {"off", "recv", "pre", "send", "done"}
   /\ adapt \in {"off", "run", "sendOk", "sendErr", "done"} /\ bridge \in {"off", "outer", "inner", "fwd"}
   /\ alive \subseteq Peers /\ nopen \in 0..5 /\ n \in 0..(HA + HB + 1)
 
@@ -328,6 +354,14 @@ StoreExtends ==
 Leaked == bridge = "off" /\ \/ proc = "send" /\ ~ENABLED ProcSendCancelled
                             \/ adapt = "sendErr" /\ ~ENABLED AdaptErrCancelled
 NoLeak == ~Leaked
+(* NOT a property (expected-violation run P2PSync_x_truncempty.cfg, a reachability witness): a cut
+   answer can be part of a verified block — cut before its first item it is an empty list, and that
+   is the truth for a fork block whose part is empty *)
+TruncNeverContributes ==
+  carry.k = "good" => \A p \in PartSet : asg[p] = NoPeer \/ ClassOf[asg[p]] # "trunc"
+
+(* nothing a peer sends ends the process *)
+NoCrash == run # "crashed"
 WoundDown == run = "exited" /\ proc \in {"off", "done"} /\ adapt \in {"off", "done"}
 CancelEndsAll == cancelled ~> WoundDown
 ExitOnlyAfterCancel == run = "exited" => cancelled
